@@ -102,6 +102,73 @@ def comptime_agg_program(rnd):
             + "use%d :: () -> i32 { s%d.entry%d() }\n" % (i, i, i)
     return files, "agg:" + "+".join(p[0] for p in picks)
 
+WORDS = ["alpha", "beta", "gamma", "delta", "omega", "sigma", "kappa", "zeta", "theta", "lambda"]
+
+
+def data_program(rnd):
+    """programs that lean on the parts of the object built from tables of the compiler: string
+    and float data, reflection metadata for many types (core.println prints through type info),
+    several files"""
+    prim = ["i32", "u8", "i64", "f64", "bool", "str", "u16", "f32", "char"]
+    lit = {"i32": lambda: str(rnd.randint(0, 999)), "u8": lambda: str(rnd.randint(0, 200)),
+           "i64": lambda: str(rnd.randint(0, 10**9)), "f64": lambda: "%d.%d" % (rnd.randint(0, 99), rnd.randint(1, 99)),
+           "bool": lambda: rnd.choice(["true", "false"]), "str": lambda: '"%s %s"' % (rnd.choice(WORDS), rnd.choice(WORDS)),
+           "u16": lambda: str(rnd.randint(0, 60000)), "f32": lambda: "%d.5" % rnd.randint(0, 99),
+           "char": lambda: "'%s'" % rnd.choice("abcxyz")}
+    types = []      # (name, kind, fields)
+    defs = []
+    for i in range(rnd.randint(2, 6)):
+        k = rnd.choice(["struct", "struct", "enum", "distinct"])
+        name = "%s%d" % ({"struct": "Rec", "enum": "Opt", "distinct": "Num"}[k], i)
+        if k == "struct":
+            fields = [("f%d" % j, rnd.choice(prim)) for j in range(rnd.randint(1, 5))]
+            defs.append("%s :: struct { %s };" % (name, ", ".join("%s: %s" % f for f in fields)))
+            types.append((name, k, fields))
+        elif k == "enum":
+            vs = []
+            for j in range(rnd.randint(2, 5)):
+                t = rnd.choice([None, None] + prim[:5])
+                vs.append(("K%d" % j, t))
+            defs.append("%s :: enum { %s };" % (name, ", ".join(v if t is None else "%s: %s" % (v, t) for v, t in vs)))
+            types.append((name, k, vs))
+        else:
+            t = rnd.choice(["i32", "u8", "i64", "f64"])
+            defs.append("%s :: distinct %s;" % (name, t))
+            types.append((name, k, t))
+    stmts = []
+    for i in range(rnd.randint(3, 10)):
+        r = rnd.random()
+        if r < 0.35:
+            args = [lit[rnd.choice(prim)]() for _ in range(rnd.randint(1, 4))]
+            stmts.append("core.println(%s);" % ", ".join(args))
+        elif r < 0.8 and types:
+            name, k, info = rnd.choice(types)
+            if k == "struct":
+                stmts.append("core.println(%s.{ %s });" % (name, ", ".join("%s = %s" % (f, lit[t]()) for f, t in info)))
+            elif k == "enum":
+                v, t = rnd.choice(info)
+                stmts.append("core.println(%s.%s%s);" % (name, v, "" if t is None else ".(%s)" % lit[t]()))
+            else:
+                stmts.append("core.println(%s.(%s));" % (name, lit[info]()))
+        else:
+            t = rnd.choice(["i32", "u8", "f64", "str"])
+            stmts.append("core.println(%s.[%s]);" % (t, ", ".join(lit[t]() for _ in range(rnd.randint(1, 4)))))
+    files = {}
+    side = rnd.random() < 0.5 and len(defs) > 1
+    if side:
+        cut = rnd.randint(1, len(defs) - 1)
+        files["types.capy"] = "\n".join(defs[cut:]) + "\n"
+        side_names = [t[0] for t in types[cut:]]
+        body = "\n".join(stmts)
+        for n in side_names:
+            body = body.replace("println(%s." % n, "println(ty.%s." % n)
+        files["main.capy"] = ('core :: #mod("core");\nty :: #import("types.capy");\n' + "\n".join(defs[:cut])
+                              + "\nmain :: () {\n    " + body.replace("\n", "\n    ") + "\n}\n")
+    else:
+        files["main.capy"] = ('core :: #mod("core");\n' + "\n".join(defs)
+                              + "\nmain :: () {\n    " + "\n    ".join(stmts) + "\n}\n")
+    return files, "data:%dtypes%s" % (len(types), "+side" if side else "")
+
 
 def break_program(rnd, files):
     """one seeded breaking mutation on a valid program's text -> diagnostics"""
@@ -147,9 +214,12 @@ def make_program(rnd):
             with open(os.path.join(common.REPO, "examples", f)) as fh:
                 files[f] = fh.read()
         return files, name, "example:" + name, True
-    if r < 0.35:
+    if r < 0.30:
         files, label = comptime_agg_program(rnd)
         return files, "main.capy", label, False
+    if r < 0.42:
+        files, label = data_program(rnd)
+        return files, "main.capy", label, True
     prog = gen.generate(rnd)
     variant = gen.random_variant(prog, rnd)
     # keep generation order inside each file: C21 is not about definition order
